@@ -1,11 +1,14 @@
 #!/bin/bash
-# usage: seed_check.sh <seed-id> <property> <tier>   -- applies the seed to /repo, runs the check, reverts.
-# /repo must be clean. Prints the check's verdict lines; exit code = the check's.
+# usage: seed_check.sh <seed-id> <property> <tier>
+# Runs a check against a scratch worktree of /repo HEAD with the seeded change applied
+# (/repo itself is not touched). Prints the verdict lines; exit code = the check's.
 set -u
 seed=$1; prop=$2; tier=${3:-quick}
-if [ -n "$(git -C /repo status --porcelain)" ]; then echo "repo not clean"; exit 9; fi
-git -C /repo apply /verif/seeded/$seed/patch.diff || exit 9
-trap 'git -C /repo checkout -- . ; git -C /repo clean -fdq' EXIT
+W=/tmp/sc-$seed-$$
+git -C /repo worktree prune
+git -C /repo worktree add -q --detach $W HEAD || exit 9
+trap 'cd /; git -C /repo worktree remove --force $W; rm -rf /verif/build/seed-$seed' EXIT
+git -C $W apply /verif/seeded/$seed/patch.diff || exit 9
 cd /verif
-VERIF_EVIDENCE_DIR=/verif/build/seed-evidence ./check $prop $tier 2>&1 | grep -E "^(OK|VIOLATION|KNOWN-FINDING|CHECK-PROBLEM|BOUND|SPURIOUS|  CEX)" | cut -c1-400 | head -20
+VERIF_REPO=$W VERIF_BUILD_DIR=/verif/build/seed-$seed VERIF_EVIDENCE_DIR=/verif/build/seed-$seed VERIF_REPLAY_DIR=/verif/build/seed-$seed/replays ./check $prop $tier 2>&1 | grep -E "^(OK|VIOLATION|KNOWN-FINDING|CHECK-PROBLEM|BOUND|SPURIOUS|  CEX|agreement)" | cut -c1-400 | head -20
 exit ${PIPESTATUS[0]}
